@@ -7,7 +7,8 @@
 //  * c47.merge-union        field-disjoint shares of p (same transaction) combine, in two different orders, to the same PSBT, which
 //                           contains every field of every share (== p, since every field lives in >= 1 share).
 //  * c47.locktime-reference own BIP370 reference for the v2 locktime == ComputeTimeLock()
-//  * c47.extract-txid / c47.extract-verify  (target c47_finalize) FinalizeAndExtractPSBT succeeded => txid == txid of the unsigned
+//  * c47.extract-txid / c47.extract-verify  (target c47_finalize; final scripts come from the signer only -- attacker-supplied final scripts are
+//                           the known finding c47.extract-verify-bogus-final, target c47_bogus_final) FinalizeAndExtractPSBT succeeded => txid == txid of the unsigned
 //                           transaction taken before finalization, every input passes VerifyScript against the PSBT's own UTXOs.
 #include <engine/verif.h>
 #include <kits/chainsim.h>
@@ -521,15 +522,15 @@ void split_nested(const std::map<K, IM>& src, const std::vector<std::map<K, IM>*
 }
 
 /** Remove every optional (non-identity) field. Identity = what defines "the same transaction" for Merge (unsigned tx incl. the
- *  fields that determine the locktime) plus tx_modifiable (merged by AND/OR, not by union) and sighash_type (see c47_merge_sighash). */
+ *  fields that determine the locktime) plus tx_modifiable (merged by AND/OR, not by union). */
 PartiallySignedTransaction skeleton(const PartiallySignedTransaction& p)
 {
     PartiallySignedTransaction q = p;
     q.m_xpubs.clear(); q.unknown.clear(); q.m_proprietary.clear();
     for (auto& in : q.inputs) {
-        auto keep_seq = in.sequence; auto t = in.time_locktime; auto h = in.height_locktime; auto sh = in.sighash_type;
+        auto keep_seq = in.sequence; auto t = in.time_locktime; auto h = in.height_locktime;
         PSBTInput fresh(in.GetVersion(), in.prev_txid, in.prev_out, in.GetVersion() == 0 ? keep_seq : std::nullopt);
-        fresh.time_locktime = t; fresh.height_locktime = h; fresh.sighash_type = sh;
+        fresh.time_locktime = t; fresh.height_locktime = h;
         in = fresh;
     }
     for (auto& out : q.outputs) out = PSBTOutput(out.GetVersion(), out.amount, out.script);
@@ -650,7 +651,7 @@ VERIF_TARGET(c47_psbt, init, 32, 700,
 
     // ---------------------------------------------------------------- disjoint shares, two orders
     unsigned nfields = 0;
-    bool shares_done = false;
+    bool shares_done = false, with_sighash = false;
     if (p.GetUniqueID().has_value()) {
         const size_t k = 2 + s.index(2);
         std::vector<PartiallySignedTransaction> sh(k, skeleton(p));
@@ -672,6 +673,8 @@ VERIF_TARGET(c47_psbt, init, 32, 700,
             single(!in.m_tap_internal_key.IsNull(), [&](auto& t) { t.inputs[i].m_tap_internal_key = in.m_tap_internal_key; });
             single(!in.m_tap_merkle_root.IsNull(), [&](auto& t) { t.inputs[i].m_tap_merkle_root = in.m_tap_merkle_root; });
             single(p.GetVersion() == 2 && in.sequence.has_value(), [&](auto& t) { t.inputs[i].sequence = in.sequence; });
+            if (in.sighash_type.has_value()) with_sighash = true;
+            single(in.sighash_type.has_value(), [&](auto& t) { t.inputs[i].sighash_type = in.sighash_type; });
             split_container(in.partial_sigs, ptrs([i](auto& x) -> auto& { return x.inputs[i].partial_sigs; }), s, nfields);
             split_container(in.hd_keypaths, ptrs([i](auto& x) -> auto& { return x.inputs[i].hd_keypaths; }), s, nfields);
             split_container(in.ripemd160_preimages, ptrs([i](auto& x) -> auto& { return x.inputs[i].ripemd160_preimages; }), s, nfields);
@@ -732,6 +735,7 @@ VERIF_TARGET(c47_psbt, init, 32, 700,
         shares_done = true;
         st.cls("shares-combined");
         st.cls(k == 2 ? "shares=2" : "shares=3");
+        if (with_sighash) st.cls("shares-with-sighash");
     } else {
         st.cls("shares-skipped:locktime-undetermined");
     }
@@ -941,11 +945,12 @@ VERIF_TARGET(c47_finalize, init, 24, 160,
     st.note("extracted txid ", result.GetHash().ToString());
 }
 
-// ------------------------------------------------------------------------------------------------ demonstration target (NOT part of the registered check)
-// PSBTInput::Merge does not merge sighash_type: combining {A with PSBT_IN_SIGHASH, B without} keeps or loses the field depending on the order.
+// ------------------------------------------------------------------------------------------------ regression target (replay-only stage)
+// PSBTInput::Merge did not merge sighash_type (repaired by a "fix:" commit): combining {A with PSBT_IN_SIGHASH, B without} kept or lost the field
+// depending on the order. The generated target covers the field too; this pins the minimal shape.
 VERIF_TARGET(c47_merge_sighash, init, 4, 16,
-             "demonstration: two PSBTs of the same transaction, only one carrying PSBT_IN_SIGHASH_TYPE on input 0, combined in both orders; "
-             "oracle c47.merge-sighash-type: same result in any order, containing the field. Not registered in the check (see SENSITIVITY.md / report).")
+             "regression shape: two PSBTs of the same transaction, only one carrying PSBT_IN_SIGHASH_TYPE on input 0, combined in both orders; "
+             "oracle c47.merge-sighash-type: same result in any order, containing the field (replayed from corpus/C47/c47_merge_sighash/).")
 {
     CMutableTransaction mtx;
     mtx.version = 2;
@@ -961,4 +966,48 @@ VERIF_TARGET(c47_merge_sighash, init, 4, 16,
     st.mix(uint64_t(ver));
     VCHECK(ab && ba, "c47.merge-sighash-type", "combine refused");
     VCHECK(dump_psbt(*ab, FULL) == dump_psbt(*ba, FULL), "c47.merge-sighash-type", "order dependent: a+b =", dump_psbt(*ab, FULL), " b+a =", dump_psbt(*ba, FULL));
+    VCHECK(ab->inputs[0].sighash_type == a.inputs[0].sighash_type, "c47.merge-sighash-type", "combined PSBT lost the sighash type");
+}
+
+// PSBT with an attacker-chosen PSBT_IN_FINAL_SCRIPTSIG / FINAL_SCRIPTWITNESS: FillSignatureData marks the input complete, ProduceSignature returns
+// early, FinalizePSBT reports success and FinalizeAndExtractPSBT hands out a transaction whose input does not verify. Known finding (known_findings.txt),
+// replay-only stage with its own oracle id so that it cannot mask other c47.extract-verify failures.
+VERIF_TARGET(c47_bogus_final, init, 4, 16,
+             "known finding: a PSBT whose only input carries a bogus final scriptSig/scriptWitness; oracle c47.extract-verify-bogus-final: a transaction extracted "
+             "by FinalizeAndExtractPSBT passes script verification against the PSBT's UTXO (replayed from corpus/C47/c47_bogus_final/).")
+{
+    const verif::KeyRing& ring = *g.ring;
+    CMutableTransaction prev;
+    prev.version = 2;
+    prev.vin.emplace_back(COutPoint(Txid::FromUint256(uint256(uint8_t(7))), 0));
+    const bool segwit = s.boolean();
+    CScript spk = ring.Script(segwit ? verif::SpkType::P2WPKH : verif::SpkType::P2PKH, 0);
+    prev.vout.emplace_back(CAmount(50000), spk);
+    CMutableTransaction mtx;
+    mtx.version = 2;
+    mtx.vin.emplace_back(COutPoint(prev.GetHash(), 0));
+    mtx.vout.emplace_back(CAmount(40000), ring.Script(verif::SpkType::P2WPKH, 1));
+    PartiallySignedTransaction psbt(mtx, s.boolean() ? 2 : 0);
+    psbt.inputs[0].non_witness_utxo = MakeTransactionRef(prev);
+    if (segwit) { psbt.inputs[0].witness_utxo = prev.vout[0]; psbt.inputs[0].final_script_witness.stack = {{0x01}, {0x02}}; }
+    else psbt.inputs[0].final_script_sig = CScript() << OP_TRUE;
+    // through bytes, as it would arrive
+    auto r = DecodeRawPSBT(MakeByteSpan(ser_psbt(psbt)));
+    VCHECK(bool(r), "c47.harness", "demo PSBT does not decode");
+    PartiallySignedTransaction fin = *r;
+    CMutableTransaction result;
+    bool ok = FinalizeAndExtractPSBT(fin, result);
+    st.steps++;
+    st.nontrivial = true;
+    st.mix(uint64_t(segwit));
+    st.cls(ok ? "extracted" : "not-extractable");
+    if (!ok) return;
+    CTxOut utxo;
+    VCHECK(fin.inputs[0].GetUTXO(utxo), "c47.harness", "no utxo");
+    PrecomputedTransactionData txdata;
+    txdata.Init(result, std::vector<CTxOut>{utxo}, true);
+    ScriptError err;
+    MutableTransactionSignatureChecker checker(&result, 0, utxo.nValue, txdata, MissingDataBehavior::FAIL);
+    bool v = VerifyScript(result.vin[0].scriptSig, utxo.scriptPubKey, &result.vin[0].scriptWitness, STANDARD_SCRIPT_VERIFY_FLAGS, checker, &err);
+    VCHECK(v, "c47.extract-verify-bogus-final", "FinalizeAndExtractPSBT returned true for a bogus final script; extracted input fails:", ScriptErrorString(err));
 }
